@@ -423,20 +423,18 @@ def topCell (tv : Option α) (c : Cell α) : Cell α :=
     | none => c
   else c
 
-/-- implementation: the scratch `toplayer` array, filled from the ACTIVE cells of the box that lie
-in layer k = 0 (every entry, whatever its deck status), read by layer index -/
+/-- implementation: the scratch `toplayer` array, filled from ALL cells of the box that lie in
+layer k = 0 (`box.global_index_list()`; every entry, whatever its deck status), read by layer index -/
 def topValueImpl (L : List Idx) (deck : Arr α) (li : Nat) : Option α :=
   match L.find? (fun e => e.g == li) with
   | some e => some (cellAt deck e.d).v
   | none => none
 
-/-- reference: the deck entry of the column's top cell, if that cell is in the box AND ACTIVE -/
-def topValueRef (D : Dims) (A : List Bool) (b : Box) (deck : Arr α) (li : Nat) : Option α :=
-  if isActive A li then
-    match boxSel D b li with
-    | some d => some (cellAt deck d).v
-    | none => none
-  else none
+/-- reference: the deck entry of the column's top cell, if that cell is in the box -/
+def topValueRef (D : Dims) (b : Box) (deck : Arr α) (li : Nat) : Option α :=
+  match boxSel D b li with
+  | some d => some (cellAt deck d).v
+  | none => none
 
 /-- map with the running global index -/
 def mapFrom {β γ : Type} (f : Nat → β → γ) : Nat → List β → List γ
@@ -452,8 +450,8 @@ def walkActive {β : Type} (f : Nat → β → β) : List Bool → Nat → List 
 
 def topApply (m : Mode) (D : Dims) (A : List Bool) (b : Box) (deck : Arr α) (x : Arr α) : Arr α :=
   match m with
-  | .ref => mapFrom (fun g c => topCell (topValueRef D A b deck (g % (D.nx * D.ny))) c) 0 x
-  | .impl => walkActive (fun g c => topCell (topValueImpl (indexList D A b) deck (g % (D.nx * D.ny))) c) A 0 x
+  | .ref => mapFrom (fun g c => topCell (topValueRef D b deck (g % (D.nx * D.ny))) c) 0 x
+  | .impl => walkActive (fun g c => topCell (topValueImpl (globalIndexList D b) deck (g % (D.nx * D.ny))) c) A 0 x
 
 end Top
 
@@ -788,7 +786,7 @@ def siData (info : DInfo α) (vals : Arr α) : Arr α :=
   vals.map fun c => ⟨c.st, info.si c.v⟩
 
 /-- tail of `handle_double_keyword`: in the GRID section a `top` keyword that is still not
-fully defined after the assignment gets the values of the box's (active) top-layer cells copied
+fully defined after the assignment gets the values of the top-layer cells of the box (active or not) copied
 down its columns -/
 def topStep (m : Mode) (D : Dims) (A : List Bool) (sec : Section) (info : DInfo α) (b : Box)
     (deck y : Arr α) : Arr α :=
@@ -1020,9 +1018,8 @@ MULTZ, MULTZ-, MINPVV)
 
 Besides the active-only array the code keeps, for these keywords, a second array over ALL
 global cells and repeats every box operation on it through `Box::global_index_list()` (index
-triples with active := global); `get_global` returns it.  Region operations only copy the new
-VALUES of the touched active cells into it (`update_global_from_local`; the status copy is
-lost: `auto to_st = *data.global_value_status` is a by-value copy), "distribute top layer" does
+triples with active := global); `get_global` returns it.  Region operations copy the touched
+active cells (value and status) into it (`update_global_from_local`), "distribute top layer" does
 not touch it.  This storage is the same object in both semantics; it is threaded next to the
 state and only reads the local arrays for the region operations. -/
 
@@ -1112,7 +1109,7 @@ def cellG {β : Type} [Scalar β] (m : Mode) (A : List Bool) (x : Arr β) (g : N
 
 /-- `update_global_from_local` for one record of a region keyword, evaluated after the keyword
 (exact because the region arrays do not change inside a region keyword and the last record
-touching a cell wins in both): the VALUE of every active cell of the region is copied. -/
+touching a cell wins in both): every active cell of the region is copied, value and status. -/
 def gRegRec (m : Mode) (D : Dims) (T : Tables α) (s : St α) (G : GStore α)
     (r : String × Int × Option String) : GStore α :=
   match sget T.dbl r.1 with
@@ -1125,7 +1122,7 @@ def gRegRec (m : Mode) (D : Dims) (T : Tables α) (s : St α) (G : GStore α)
         match sget s.ints rn, sget s.dbls r.1 with
         | some reg, some loc =>
           sput G r.1 ((gGet D G r.1 info).mapIdx fun g c =>
-            if isActive s.act g = true ∧ (cellG m s.act reg g).v = r.2.1 then ⟨c.st, (cellG m s.act loc g).v⟩ else c)
+            if isActive s.act g = true ∧ (cellG m s.act reg g).v = r.2.1 then cellG m s.act loc g else c)
         | _, _ => G
     else G
 
